@@ -55,3 +55,32 @@ Fixpoint spec_run (univ : list Z) (p : Z -> bool) (ops : list (sop Z)) : list se
 Definition set_judge (c : set_case) : nat :=
   verdict (all_eqb (sc_obs c) (spec_run (sc_univ c) a_empty (sc_ops c)))
           (all_eqb (sc_obs c) (map (model_obs (sc_univ c)) (s_run Z.eqb s_nil (sc_ops c)))).
+
+(* ---- several set variables (SetMultiModel): after every operation all variables are probed ---- *)
+From GT Require Import SetMultiModel.
+
+Record mset_case := {
+  mc_univ : list Z; mc_vars : nat; mc_ops : list (mop Z); mc_obs : list (list set_obs)
+}.
+
+Fixpoint all_eqb2 (a b : list (list set_obs)) : bool :=
+  match a, b with
+  | [], [] => true
+  | x :: a', y :: b' => all_eqb x y && all_eqb2 a' b'
+  | _, _ => false
+  end.
+
+Fixpoint mspec_run (univ : list Z) (ps : list (Z -> bool)) (ops : list (mop Z)) : list (list set_obs) :=
+  match ops with
+  | [] => []
+  | o :: rest =>
+      let a := am_step Z.eqb ps univ o in
+      map (fun p => spec_obs univ (p, snd a)) (fst a) :: mspec_run univ (fst a) rest
+  end.
+
+Definition mset_judge (c : mset_case) : nat :=
+  verdict
+    (all_eqb2 (mc_obs c) (mspec_run (mc_univ c) (repeat a_empty (mc_vars c)) (mc_ops c)))
+    (all_eqb2 (mc_obs c)
+       (map (fun r => map (fun s => model_obs (mc_univ c) (s, snd r)) (fst r))
+            (m_run Z.eqb (repeat s_nil (mc_vars c)) (mc_ops c)))).
